@@ -115,9 +115,10 @@ func init() {
 	props["C14"] = &c14
 	c03 := *props["C02"]
 	c03.QuickRuns, c03.ThoroughRuns = 8000, 300000
+	c03.Pkgs = dbPkgs + ",runtime,api,modules,config"
 	c03.Rule = "one evaluation = one simulated run: a privileged interface writes records with every flag combination (at creation or later) and an interface with one of the three non-privileged Local/Internal combinations (with or without read cache) runs a generated sequence over get, exists, query, subscription feed, attribute insert, absolute/relative expiry, make-secret, make-crown-jewel, delete, purge, batch put, put and put-new; backend in {hashmap, fstree, bbolt} x shadow delete; after every client step the privileged view of every key is compared with the model; distinct = distinct hash of the step kinds; non-trivial = at least 2 goroutine switches"
 	c03.Stub = nil
-	c03.Assume = []string{"the injected runtime/config databases and the external database API path are not exercised by this check (the API path is part of C13's harness)"}
+	c03.Assume = []string{"the injected config database is not exercised (its options carry no flags); the runtime registry and the external database API (api.CreateDatabaseAPI) are"}
 	props["C03"] = &c03
 	props["C17"] = &propCfg{
 		Harness: "fssim", Pkgs: "log,utils,utils/renameio,database/storage/fstree,updater", FSPkgs: "utils,utils/renameio,database/storage/fstree,updater",
